@@ -38,7 +38,11 @@ func TestVerif(t *testing.T) {
 		for _, c := range common.ReadReplay(run.Replay) {
 			switch c["kind"] {
 			case "A":
-				applyCase(c["line"])
+				if strings.HasPrefix(c["line"], "T ") {
+					tagCase(c["line"])
+				} else {
+					applyCase(c["line"])
+				}
 			case "M":
 				var mc MergeCase
 				if err := json.Unmarshal([]byte(c["case"]), &mc); err != nil {
@@ -65,6 +69,9 @@ func TestVerif(t *testing.T) {
 	applyFixed()
 	for i := 0; i < na; i++ {
 		applyCase(genApplyLine(ra))
+	}
+	for i := 0; i < run.Scale(100, 5000); i++ {
+		tagCase(genTagLine(ra))
 	}
 	nm := run.Scale(150, 120000)
 	rm := r.Fork()
@@ -285,7 +292,7 @@ func xLine(c *E2ECase, res *E2EResult, s int) (string, string, bool) {
 // of concurrent operations on one subject that already has two live referrers.
 func exploreE2E(t *testing.T, kinds []string, skipGC bool, maxFaults, limit int) int {
 	base := &E2ECase{Seed: 1, SkipGC: skipGC, NSubjects: 1, MaxFaults: maxFaults, Explore: true}
-	base.Mans = []Man{{Subject: 0, Kind: "image", ConfigMT: cfgTypes[0], Salt: 0}, {Subject: 0, Kind: "artifact", ArtifactType: artTypes[1], Salt: 1}}
+	base.Mans = []Man{{Subject: 0, Kind: "image", ConfigMT: cfgTypes[0], Salt: 0}, {Subject: 0, Kind: "artifact", ArtifactType: artTypes[1], Salt: 1, SubjVar: 1}}
 	base.PreLive = []int{0, 1}
 	base.PreIndex = [][]int{{0, 1, 0}}
 	var ops []Op
@@ -295,7 +302,8 @@ func exploreE2E(t *testing.T, kinds []string, skipGC bool, maxFaults, limit int)
 			ops = append(ops, Op{ID: i, Kind: "delete", Man: del})
 			del++
 		} else {
-			base.Mans = append(base.Mans, Man{Subject: 0, Kind: "image", ConfigMT: cfgTypes[1], Ann: map[string]string{"k": fmt.Sprint(i)}, Salt: 10 + i})
+			// the pushed referrers name the subject with different descriptors (same digest)
+			base.Mans = append(base.Mans, Man{Subject: 0, Kind: "image", ConfigMT: cfgTypes[1], Ann: map[string]string{"k": fmt.Sprint(i)}, Salt: 10 + i, SubjVar: i % 4})
 			ops = append(ops, Op{ID: i, Kind: "push", Man: len(base.Mans) - 1})
 		}
 	}
